@@ -30,7 +30,7 @@ pub const PREREQS: &[&str] = &["a", "b/c.h", "C:/x", "d\\e"];
 
 const PRE_COLON: &[&str] = &["", " ", "  "];
 /// Gap before a prerequisite (after the colon or after another prerequisite).
-const GAP: &[&str] = &[" ", "  ", " \\\n  ", "\\\n "];
+const GAP: &[&str] = &[" ", "  ", " \\\n  ", "\\\n ", " \\\n \\\n  ", "\\\n\\\n "];
 /// What follows the last word of an entry, before the newline.
 const TRAIL: &[&str] = &["", " ", "  "];
 const BETWEEN: &[&str] = &["\n", "\n\n", "\n  \n"];
@@ -141,4 +141,89 @@ pub fn for_formats(d: &AbstractDepfile, max_dev: Option<usize>, f: &mut dyn FnMu
         None => for_product(&radices, &mut g),
         Some(k) => for_deviations(&radices, k, &mut g),
     }
+}
+
+/// Reference recogniser for the plain core of the depfile grammar, used on the
+/// exhaustive string enumeration: words are runs of `a`, an entry is
+/// `word blank* ':' (sep word)* blank* (newline | end)` with
+/// `sep = (blank | backslash-newline)+`, entries may be separated by lines
+/// holding only blanks.  Returns the prerequisites of all entries in order, or
+/// None when the text is outside this core (then only totality is demanded).
+pub fn recognise_plain(text: &[u8]) -> Option<Vec<Vec<String>>> {
+    let n = text.len();
+    let mut i = 0usize;
+    let mut entries: Vec<Vec<String>> = Vec::new();
+    let word = |i: &mut usize| -> Option<String> {
+        let s = *i;
+        while *i < n && text[*i] == b'a' {
+            *i += 1;
+        }
+        if *i > s {
+            Some("a".repeat(*i - s))
+        } else {
+            None
+        }
+    };
+    while i < n {
+        // blank-only line
+        let mut j = i;
+        while j < n && text[j] == b' ' {
+            j += 1;
+        }
+        if j < n && text[j] == b'\n' {
+            i = j + 1;
+            continue;
+        }
+        if j == n {
+            // trailing blanks without newline: outside the core unless nothing at all follows
+            return if j == i { Some(entries) } else { None };
+        }
+        if j != i {
+            return None; // indented target
+        }
+        word(&mut i)?;
+        while i < n && text[i] == b' ' {
+            i += 1;
+        }
+        if i >= n || text[i] != b':' {
+            return None;
+        }
+        i += 1;
+        let mut deps = Vec::new();
+        loop {
+            // separator: blanks and continuations
+            let s = i;
+            let mut saw_cont = false;
+            loop {
+                if i < n && text[i] == b' ' {
+                    i += 1;
+                } else if i + 1 < n && text[i] == b'\\' && text[i + 1] == b'\n' {
+                    i += 2;
+                    saw_cont = true;
+                } else {
+                    break;
+                }
+            }
+            if i >= n {
+                if saw_cont {
+                    return None; // continuation into the end of file
+                }
+                break;
+            }
+            if text[i] == b'\n' {
+                if saw_cont {
+                    return None; // continuation followed by an empty line
+                }
+                i += 1;
+                break;
+            }
+            if i == s {
+                return None; // word glued to the colon or to another token
+            }
+            let w = word(&mut i)?;
+            deps.push(w);
+        }
+        entries.push(deps);
+    }
+    Some(entries)
 }
